@@ -249,6 +249,8 @@ pub struct World {
     pub trace: Vec<Value>,
     pub fails: Vec<Fail>,
     pub key_seq: HashMap<String, usize>,
+    /// metadata of every block as recorded when it was committed: (info, parents, packs)
+    pub block_meta: BTreeMap<String, (Value, BTreeSet<String>, Vec<String>)>,
     pub stats: BTreeMap<String, usize>,
     pub op_index: usize,
     pub light: bool,
@@ -317,6 +319,7 @@ impl World {
             trace: vec![],
             fails: vec![],
             key_seq: HashMap::new(),
+            block_meta: BTreeMap::new(),
             stats: BTreeMap::new(),
             op_index: 0,
             light,
@@ -481,6 +484,24 @@ impl World {
                         fails.push(("C13", format!("block {} does not exceed the index of its parent {}", id, p)));
                     }
                     named.insert(p.to_string());
+                }
+            }
+        }
+        // metadata, parents and pack lists read back unchanged on every replica that holds the block
+        for id in st.keys() {
+            if let (Some((info, parents, packs)), Ok(Some(d))) = (self.block_meta.get(id), m.get_delta(&DeltaId::from(id).unwrap())) {
+                let got_info = d.info.clone().map(Value::from).unwrap_or(Value::Null);
+                if &got_info != info {
+                    fails.push(("C13", format!("metadata of block {} reads back as {} on replica {}, committed as {}", id, js(&got_info), r, js(info))));
+                }
+                let ps: BTreeSet<String> = d.parents.clone().unwrap_or_default().iter().map(|p| p.to_string()).collect();
+                if &ps != parents {
+                    fails.push(("C13", format!("parents of block {} read back as {:?} on replica {}, committed as {:?}", id, ps, r, parents)));
+                }
+                let mut ks: Vec<String> = d.packs.clone().unwrap_or_default().into_iter().collect();
+                ks.sort();
+                if &ks != packs {
+                    fails.push(("C13", format!("pack list of block {} reads back as {:?} on replica {}, committed as {:?}", id, ks, r, packs)));
                 }
             }
         }
@@ -785,6 +806,7 @@ impl World {
         }
         let res = m.commit(info.as_object().cloned());
         let mut fails: Vec<(&str, String)> = vec![];
+        let mut meta_rec: Option<(String, (Value, BTreeSet<String>, Vec<String>))> = None;
         let log = if let Backend::Sim(s) = &self.reps[r].be { s.take_log() } else { vec![] };
         let items_after = self.reps[r].be.snapshot();
         {
@@ -835,6 +857,9 @@ impl World {
                                     fails.push(("C13", "index of the new block does not exceed its parents".into()));
                                 }
                             }
+                            let mut ks: Vec<String> = d.packs.clone().unwrap_or_default().into_iter().collect();
+                            ks.sort();
+                            meta_rec = Some((id.clone(), (info.clone(), anchors_before.clone(), ks)));
                             if d.info.map(Value::from).unwrap_or(Value::Null) != info {
                                 fails.push(("C13", "commit metadata does not read back unchanged".into()));
                             }
@@ -910,6 +935,9 @@ impl World {
             let a: Vec<String> = m.get_anchors().iter().map(|x| x.to_string()).collect();
             let o = obs_noblocks(m);
             self.reps[r].heads_log.push((a, o));
+        }
+        if let Some((id, rec)) = meta_rec {
+            self.block_meta.insert(id, rec);
         }
         for (p, w) in fails {
             self.fail(p, w);
